@@ -17,6 +17,8 @@ lists of calls:
       `Load()` returns the shape and the row-major elements of the source view as they were at the time of the Write;
 * T9d `history_last_write_wins`, T9e `history_last_writeSlice` — over WHOLE histories with any number of earlier writers
       to the same path: the last `Write` (resp. `WriteSlice`) of a path determines what is found there at the end;
+* T9f `writeSlices_last_block_wins` — any number of `WriteSlice` calls to ONE dataset, blocks overlapping in any way: every
+      element is that of the last request whose block covers its coordinate, else the original;
 * T9c `writeSlice_then_load_across` — T4 across a history: the dataset after `WriteSlice` + any calls on other paths
       differs from the dataset before exactly on the block.
 
@@ -130,6 +132,75 @@ theorem history_last_writeSlice (d0 : Disk) (wf0 : DiskWF d0) (pre post : List O
   rw [applyOps_append, hd]
   exact h2
 
+/-! ### several `WriteSlice` calls to ONE dataset: the last block that covers a coordinate wins -/
+
+/-- one `WriteSlice(data, loc)` request: the source array (in its heap) and the location -/
+structure SliceReq where
+  h : Heap Int
+  a : Arr
+  loc : Idx
+
+/-- the hypotheses T4 puts on the ARGUMENTS of one request against a dataset of shape `s` -/
+def SliceReq.OK (s : List Nat) (q : SliceReq) : Prop :=
+  Reach q.a.v ∧ ArrOK q.h q.a ∧ BlockIn (intsToUints q.loc) (intsToUints q.a.v.dims) s
+
+/-- the row-major elements of the request's source view (`[]` if a `Get` panics; not the case under `OK`) -/
+def SliceReq.vals (q : SliceReq) : List Int :=
+  match OW.NdC02.getAll q.h q.a (OW.NdC02.rowMajor q.a.v.dims) with
+  | .ok vals => vals
+  | .error _ => []
+
+/-- what one request makes of the expected element at coordinate `c`: inside its block the source element, outside what
+was there -/
+def expectAfter (cur : List Nat → Option Int) (q : SliceReq) : List Nat → Option Int := fun c =>
+  if inBlock c (intsToUints q.loc) (intsToUints q.a.v.dims) = true
+  then q.vals[ravelN (List.zipWith (· - ·) c (intsToUints q.loc)) (intsToUints q.a.v.dims)]?
+  else cur c
+
+theorem foldl_expectAfter_pointwise (reqs : List SliceReq) (f g : List Nat → Option Int) (c : List Nat)
+    (hfg : f c = g c) : (reqs.foldl expectAfter f) c = (reqs.foldl expectAfter g) c := by
+  induction reqs generalizing f g with
+  | nil => exact hfg
+  | cons q rest ih =>
+    simp only [List.foldl_cons]
+    apply ih
+    simp only [expectAfter, hfg]
+
+/-- T9f (any number of `WriteSlice` calls to one dataset). On a well-formed file with a dataset of shape `s` and elements
+`v` at `path`, after ANY list of `WriteSlice` requests to that path — each with a reachable source on a well-windowed
+storage and its block inside the dataset, blocks overlapping in any way — the dataset still has shape `s`, as many
+elements, and the element at every coordinate is the source element of the LAST request whose block covers the
+coordinate, else the original element (`foldl expectAfter`). -/
+theorem writeSlices_last_block_wins (path : String) : ∀ (reqs : List SliceReq) (t : Tree) (p : Path) (s : List Nat)
+    (v : List Int), WF t → openDataset t path = .ok (p, s, v) → (∀ q ∈ reqs, q.OK s) →
+    ∃ t' v', applyOps false (some t) (reqs.map fun q => Op.writeSlice q.h q.a path q.loc) = some t' ∧ WF t' ∧
+      find t' p = some (.ds s v') ∧ v'.length = v.length ∧
+      ∀ c, CoordIn c s → v'[ravelN c s]? = (reqs.foldl expectAfter (fun c => v[ravelN c s]?)) c := by
+  intro reqs
+  induction reqs with
+  | nil =>
+    intro t p s v wf hod _
+    exact ⟨t, v, rfl, wf, (openDataset_eq.mp hod).2.2, rfl, fun _ _ => rfl⟩
+  | cons q rest ih =>
+    intro t p s v wf hod hall
+    obtain ⟨hr, hok, hb⟩ := hall q (by simp)
+    obtain ⟨vals, v1, h1, h2, h3, h4, h5, -, wf1⟩ := writeSlice_footprint q.h q.a hr hok hod wf q.loc hb
+    obtain ⟨hp, hpne, -⟩ := openDataset_eq.mp hod
+    have hod1 : openDataset (setVals t p v1) path = .ok (p, s, v1) := openDataset_eq.mpr ⟨hp, hpne, h3⟩
+    obtain ⟨t', v', g1, g2, g3, g4, g5⟩ :=
+      ih (setVals t p v1) p s v1 wf1 hod1 (fun q' hq' => hall q' (List.mem_cons_of_mem _ hq'))
+    refine ⟨t', v', ?_, g2, g3, by rw [g4, h4], ?_⟩
+    · simp only [List.map_cons, applyOps, List.foldl_cons, stepOp] at g1 ⊢
+      rw [h2]
+      exact g1
+    · intro c hc
+      rw [g5 c hc]
+      simp only [List.foldl_cons]
+      apply foldl_expectAfter_pointwise
+      rw [h5 c hc]
+      have hv : q.vals = vals := by simp only [SliceReq.vals, h1]
+      simp only [expectAfter, hv]
+
 /-! ### non-vacuity -/
 namespace Ex
 open OW.Props.C02.Ex
@@ -182,6 +253,45 @@ example : ∃ vals, OW.NdC02.getAll heap stepped (OW.NdC02.rowMajor stepped.v.di
       intro op hop
       simp only [List.mem_cons, List.not_mem_nil, or_false] at hop
       rcases hop with rfl | rfl <;> simp [Op.path, splitPath_a, splitPath_b])
+
+theorem blockIn_ex0 : BlockIn (intsToUints [0, 1]) (intsToUints stepped.v.dims) [3, 4] := by
+  have e1 : intsToUints [0, 1] = [0, 1] := by decide
+  have e2 : intsToUints stepped.v.dims = [2, 2] := by decide
+  rw [e1, e2]
+  exact ⟨by omega, by omega, trivial⟩
+
+/-- T9f instance: two OVERLAPPING 2×2 blocks, at (1,1) and then at (0,1), of the 3×4 dataset of zeros: all hypotheses hold
+together; at coordinate (1,1) — covered by both — the expected element is the one of the SECOND request (element (1,0) of
+the view = 8), at (2,2) — covered by the first only — element (1,1) of the view = 10, at (0,0) the original 0. -/
+example : ∃ t' v', applyOps false (some file34)
+      [.writeSlice heap stepped "a" [1, 1], .writeSlice heap stepped "a" [0, 1]] = some t' ∧ WF t' ∧
+    find t' ["a"] = some (.ds [3, 4] v') ∧ v'.length = 12 ∧
+    v'[ravelN [1, 1] [3, 4]]? = some 8 ∧ v'[ravelN [2, 2] [3, 4]]? = some 10 ∧ v'[ravelN [0, 0] [3, 4]]? = some 0 := by
+  obtain ⟨t', v', h1, h2, h3, h4, h5⟩ := writeSlices_last_block_wins "a"
+    [⟨heap, stepped, [1, 1]⟩, ⟨heap, stepped, [0, 1]⟩] file34 ["a"] [3, 4] (List.replicate 12 0) wf_file34 open_file34
+    (by
+      intro q hq
+      simp only [List.mem_cons, List.not_mem_nil, or_false] at hq
+      rcases hq with rfl | rfl
+      · exact ⟨reach_stepped, ok_stepped, blockIn_ex⟩
+      · exact ⟨reach_stepped, ok_stepped, blockIn_ex0⟩)
+  have hv : (⟨heap, stepped, [1, 1]⟩ : SliceReq).vals = [0, 2, 8, 10] ∧
+      (⟨heap, stepped, [0, 1]⟩ : SliceReq).vals = [0, 2, 8, 10] := by
+    have h3 : OW.NdC02.getAll heap stepped (OW.NdC02.rowMajor stepped.v.dims) = .ok [0, 2, 8, 10] := by decide
+    simp only [SliceReq.vals, h3, and_self]
+  have e1 : intsToUints [1, 1] = [1, 1] := by decide
+  have e0 : intsToUints [0, 1] = [0, 1] := by decide
+  have e2 : intsToUints stepped.v.dims = [2, 2] := by decide
+  refine ⟨t', v', h1, h2, h3, by rw [h4]; rfl, ?_, ?_, ?_⟩
+  · rw [h5 [1, 1] (by simp [CoordIn])]
+    simp only [List.foldl_cons, List.foldl_nil, expectAfter, hv.1, hv.2, e1, e0, e2]
+    decide
+  · rw [h5 [2, 2] (by simp [CoordIn])]
+    simp only [List.foldl_cons, List.foldl_nil, expectAfter, hv.1, hv.2, e1, e0, e2]
+    decide
+  · rw [h5 [0, 0] (by simp [CoordIn])]
+    simp only [List.foldl_cons, List.foldl_nil, expectAfter, hv.1, hv.2, e1, e0, e2]
+    decide
 
 end Ex
 end OW.Props.C08
